@@ -17,6 +17,8 @@ def run(rep, tier):
     rep.rule("R-TERM-POINT", "the final sample is the terminal event's (time, state)")
     rep.rule("R-TERM-TAINT", "terminal_count influences nothing but the Interrupt decision")
     rep.rule("R-INTERRUPT-STOP", "all six solvers turn Interrupt into UserInterrupt and perform no further evaluation or callback")
+    rep.rule("R-TEVAL-BEFORE-INTERRUPT", "every path that returns Interrupt has passed a t_eval sampling region (requested times before the stop are still reported)")
+    rep.rule("R-TEVAL-WINDOW", "the samples flushed before the stop are guarded by the same direction-matched window test as in a run without the terminal flag")
     rep.rule("R-EVT-SORT", "co-located events are processed in integration order")
     rep.rule("R-OBS-FLAGS", "the handler returns only Continue or Interrupt")
     H.r_term(rep, hc)
@@ -24,6 +26,8 @@ def run(rep, tier):
     H.r_evt_sort(rep, hc)
     H.r_obs_flags(rep, hc)
     H.r_prev_update(rep, hc)
+    H.r_teval_before_interrupt(rep, hc)
+    H.r_teval_window(rep, hc)
     C19.interrupt_rule(rep, f)
     rep.explanation = ("Largely decided structurally. 'Everything before the stop is identical to the non-terminal run' follows from R-TERM-TAINT "
                        "(the terminal flag feeds only the Interrupt decision) together with determinism (C12).")
